@@ -96,6 +96,10 @@ def lattice_mutation(rng, allow_all6=True):
     r = lambda lo, hi: round(rng.uniform(lo, hi), 4)
     if allow_all6 and w < 0.3:
         return {"how": "all6", "par": lattice_spec(rng, rng.choice(["oblique", "hex", "ortho", "mono"]), post=False)["par"]}
+    if w < 0.36:
+        # a detour: re-based in place to another cell, then set back to EXACTLY the parameters it had (all six at once, or the
+        # three angles at once and then the lengths)
+        return {"how": "detour", "par": _lattice_spec(rng, "oblique")["par"], "rot": rotation(rng).tolist(), "angles_first": rng.random() < 0.5}
     if w < 0.42:
         # re-based in place: setLatBase with the base vectors of another (oblique, rotated) cell
         return {"how": "setbase", "par": _lattice_spec(rng, "oblique")["par"], "rot": rotation(rng).tolist()}
@@ -130,6 +134,17 @@ def apply_mutation(L, m):
         work = np.array(Lattice(*m["par"], baserot=np.array(m["rot"])).base, dtype=float)
         L.setLatBase(work)
         work *= 0.5          # the caller's array is reused afterwards
+        return True
+    if how == "detour":
+        from diffpy.structure import Lattice
+
+        p0 = [float(v) for v in L.abcABG()]
+        L.setLatBase(np.array(Lattice(*m["par"], baserot=np.array(m["rot"])).base, dtype=float))
+        if m.get("angles_first"):
+            L.setLatPar(alpha=p0[3], beta=p0[4], gamma=p0[5])
+            L.setLatPar(a=p0[0], b=p0[1], c=p0[2])
+        else:
+            L.setLatPar(*p0)
         return True
     ang = {"alpha": L.alpha, "beta": L.beta, "gamma": L.gamma}
     if m.get("name") in ang:
